@@ -15,6 +15,8 @@ hold inverse matrices); `setGenerator_wf` shows every history of assignments est
 under the contract `InvertOK` for `numpy.linalg.inv`.
 -/
 import GT.Lemmas.RepHom
+import GT.Lemmas.RepDerived
+import GT.Lemmas.Fox
 
 set_option linter.unusedSectionVars false
 
@@ -141,5 +143,203 @@ theorem astype_hom (f : R →+* S) {ρ : Rep n R} {σ : Rep n S} (hc : ρ.Cohere
     simp only [Except.ok.injEq] at hB
     subst hB
     simp
+
+
+/-- `rep.gln_adjoint()`: `w ↦ Ad(ρ(w)) = ρ(w) ⊗ (ρ(w)⁻¹)ᵀ` in the basis `E_ij` (row-major) -/
+theorem gln_adjoint_hom {ρ : Rep n R} {σ : Rep (n * n) R} (hc : ρ.Coherent)
+    (hσ : ρ.glnAdjoint = .ok σ) {w : Word} {A : Matrix (Fin n) (Fin n) R} (hw : ρ.value w = .ok A) :
+    σ.value w = .ok (Rep.kron A (A⁻¹)ᵀ) := by
+  refine Rep.compose_value (fun X => Rep.kron X (X⁻¹)ᵀ) ?_ ?_ ?_ hc hσ hw
+  · simp [Rep.kron_one]
+  · intro X Y
+    rw [Matrix.mul_inv_rev, Matrix.transpose_mul, Rep.kron_mul]
+  · intro X Xi B hB hX
+    simp only [Except.ok.injEq] at hB
+    subst hB
+    rw [Rep.glnAdjointMat_toMatrix, Matrix.inv_eq_right_inv hX]
+
+/-- the double `np.concatenate` of `np.tensordot(A, B, axes=0)` is Mathlib's Kronecker product -/
+theorem tensorMat_eq_kronecker {p : ℕ} (A : DMat n n R) (B : DMat p p R) :
+    (Rep.tensorMat A B).toMatrix =
+      Matrix.reindex finProdFinEquiv finProdFinEquiv (Matrix.kroneckerMap (· * ·) A.toMatrix B.toMatrix) :=
+  Rep.tensorMat_toMatrix A B
+
+/-- `rep.tensor_product(other)`: `w ↦ ρ(w) ⊗ σ(w)` for every word over the generators and their
+inverses (`NamesOK`: distinct names, none the inverse of another — true of every dict of valid
+generator names, see `names_ok_of_valid`) -/
+theorem tensor_hom {p : ℕ} {invert : DMat (n * p) (n * p) R → Option (DMat (n * p) (n * p) R)}
+    (hinv : InvertOK invert) {ρ : Rep n R} {σ : Rep p R} {τ : Rep (n * p) R}
+    (hτ : ρ.tensorProduct invert σ = .ok τ) (hcρ : ρ.Coherent) (hcσ : σ.Coherent)
+    (hn : Rep.NamesOK invertGen ρ.asymGens)
+    (hpρ : ∀ g ∈ ρ.asymGens, parseWord ρ.parseSimple g = [g])
+    (hpσ : ∀ g ∈ ρ.asymGens, parseWord σ.parseSimple g = [g])
+    (hiρ : ∀ g ∈ ρ.asymGens, ρ.inv g = invertGen g) (hiσ : ∀ g ∈ ρ.asymGens, σ.inv g = invertGen g)
+    (w : Word) (hw : ∀ x ∈ w, x ∈ ρ.asymGens ∨ ∃ g ∈ ρ.asymGens, x = invertGen g)
+    {A : Matrix (Fin n) (Fin n) R} {B : Matrix (Fin p) (Fin p) R}
+    (hA : ρ.value w = .ok A) (hB : σ.value w = .ok B) :
+    τ.value w = .ok (Rep.kron A B) ∧ τ.WF :=
+  Rep.tensor_value hinv hτ hcρ hcσ hn hpρ hpσ hiρ hiσ w hw hA hB
+
+/-- `rep.subgroup({g: word})` (default `compute_inverse=True`): a word in the new generators is
+sent to the image of the word obtained by substitution (`g ↦ word(g)`,
+`invert_gen(g) ↦ formal_inverse(word(g))`) -/
+theorem subgroup_hom {invert : DMat n n R → Option (DMat n n R)} (hinv : InvertOK invert)
+    {ρ σ : Rep n R} {pairs : List (Gen × Word)} {rels : List Word}
+    (hσ : ρ.subgroup invert pairs true rels = .ok σ) (hc : ρ.Coherent)
+    (hn : Rep.NamesOK invertGen (pairs.map Prod.fst))
+    (u : Word) (hu : ∀ x ∈ u, x ∈ pairs.map Prod.fst ∨ ∃ g ∈ pairs.map Prod.fst, x = invertGen g)
+    {A : Matrix (Fin n) (Fin n) R} (hA : ρ.value (Rep.substWord ρ.inv pairs u) = .ok A) :
+    σ.value u = .ok A ∧ σ.WF :=
+  Rep.subgroup_value hinv hσ hc hn u hu hA
+
+/-- the side conditions on names used above hold for every dict of names that `_set_generator`
+accepts -/
+theorem names_ok_of_valid (ρ : Rep n R) (hnd : (ρ.gens.map Prod.fst).Nodup)
+    (hv : ∀ g ∈ ρ.gens.map Prod.fst, validName g = true) : Rep.NamesOK invertGen ρ.asymGens := by
+  obtain ⟨h1, h2, h3⟩ := Fox.side_conditions_of_valid ρ hnd hv
+  exact ⟨h1, h3, h2⟩
+
+/-! ## Fox calculus -/
+
+/-- all keys of a Fox derivative are distinct and freely reduced, so the dict comprehension in
+`words.simplify` never merges two keys (it would overwrite, not add, coefficients) -/
+theorem simplify_keys_reduced (inv : Gen → Gen) (g : Gen) (w : Word) {d : ZWord}
+    (h : foxDeriv inv g w = some d) :
+    (d.map Prod.fst).Nodup ∧ ∀ k ∈ d.map Prod.fst, simplifyWord inv k = k :=
+  Fox.foxDeriv_keys_simplify inv g w h
+
+/-- … hence `act_left` acts key by key -/
+theorem actLeft_no_merge {inv : Gen → Gen} {x : Gen} (hx : inv (inv x) = x) (g : Gen) (w : Word)
+    {d : ZWord} (h : foxDeriv inv g w = some d) :
+    actLeft inv [x] d = d.map (fun kv => (simplifyWord inv (x :: kv.1), kv.2)) :=
+  Fox.actLeft_foxDeriv_eq_map hx g w h
+
+/-- **fundamental formula of Fox calculus** for the executable `differential`:
+`ρ(w) − 1 = Σ_g D_g(w)·(ρ(g) − 1)`, equivalently `differential(w) @ coboundary_matrix = 1 − ρ(w)`,
+for every non-empty word over the generators and their inverses -/
+theorem fox_fundamental {ρ : Rep n R} (hinv : ρ.inv = invertGen) (hcoh : ρ.Coherent)
+    (H1 : ρ.asymGens.Nodup)
+    (H2 : ∀ g ∈ ρ.asymGens, ∀ h ∈ ρ.asymGens, invertGen g ≠ h)
+    (H5 : ∀ g ∈ ρ.asymGens, invertGen (invertGen g) = g)
+    (hgen : ∀ g ∈ ρ.asymGens, ∃ A, ρ.genM g = .ok A)
+    {w : Word} (hw : w ≠ [])
+    (hl : ∀ x ∈ w, x ∈ ρ.asymGens ∨ ∃ g ∈ ρ.asymGens, x = invertGen g) :
+    ∃ blocks cb A, ρ.differential w = .ok blocks ∧ blocks.length = ρ.asymGens.length ∧
+      ρ.coboundaryMatrix = .ok cb ∧ ρ.value w = .ok A ∧
+      (Rep.blockDot blocks cb).toMatrix = 1 - A ∧
+      (List.zipWith (fun (B : DMat n n R) g => B.toMatrix * (Fox.gmat ρ g - 1)) blocks ρ.asymGens).sum = A - 1 :=
+  Fox.fox_fundamental hinv hcoh H1 H2 H5 hgen hw hl
+
+/-- the empty word has no Fox derivative in the code (`word[0]` raises `IndexError`) -/
+theorem differential_nil (ρ : Rep n R) (g : Gen) : ρ.differentialAt [] g = .error "IndexError" :=
+  Fox.differentialAt_nil ρ g
+
+/-- `cocycle_matrix @ coboundary_matrix`: the block row of a relation `r` gives `1 − ρ(r)` -/
+theorem cocycle_mul_coboundary {ρ : Rep n R} (hinv : ρ.inv = invertGen) (hcoh : ρ.Coherent)
+    (H1 : ρ.asymGens.Nodup)
+    (H2 : ∀ g ∈ ρ.asymGens, ∀ h ∈ ρ.asymGens, invertGen g ≠ h)
+    (H5 : ∀ g ∈ ρ.asymGens, invertGen (invertGen g) = g)
+    (hgen : ∀ g ∈ ρ.asymGens, ∃ A, ρ.genM g = .ok A)
+    (hrel : ∀ r ∈ ρ.relations, r ≠ [] ∧ ∀ x ∈ r, x ∈ ρ.asymGens ∨ ∃ g ∈ ρ.asymGens, x = invertGen g) :
+    ∃ rows cb, ρ.cocycleMatrix = .ok rows ∧ ρ.coboundaryMatrix = .ok cb ∧
+      List.Forall₂ (fun r row => ∃ A, ρ.value r = .ok A ∧ (Rep.blockDot row cb).toMatrix = 1 - A)
+        ρ.relations rows :=
+  Fox.cocycle_mul_coboundary hinv hcoh H1 H2 H5 hgen hrel
+
+/-- … so the cocycle matrix of satisfied relations annihilates the coboundary matrix -/
+theorem cocycle_mul_coboundary_eq_zero {ρ : Rep n R} (hinv : ρ.inv = invertGen) (hcoh : ρ.Coherent)
+    (H1 : ρ.asymGens.Nodup)
+    (H2 : ∀ g ∈ ρ.asymGens, ∀ h ∈ ρ.asymGens, invertGen g ≠ h)
+    (H5 : ∀ g ∈ ρ.asymGens, invertGen (invertGen g) = g)
+    (hgen : ∀ g ∈ ρ.asymGens, ∃ A, ρ.genM g = .ok A)
+    (hrel : ∀ r ∈ ρ.relations, r ≠ [] ∧ ∀ x ∈ r, x ∈ ρ.asymGens ∨ ∃ g ∈ ρ.asymGens, x = invertGen g)
+    (hsat : ∀ r ∈ ρ.relations, ρ.value r = .ok 1) :
+    ∃ rows cb, ρ.cocycleMatrix = .ok rows ∧ ρ.coboundaryMatrix = .ok cb ∧
+      rows.length = ρ.relations.length ∧ ∀ row ∈ rows, (Rep.blockDot row cb).toMatrix = 0 :=
+  Fox.cocycle_mul_coboundary_eq_zero hinv hcoh H1 H2 H5 hgen hrel hsat
+
+
+/-! ## non-vacuity: the hypotheses above are met by a concrete representation
+
+`Fox.exRep : Rep 2 ℤ` has `a, b ↦` the elementary matrices of `SL(2,ℤ)` and `A, B ↦` their
+inverses (what two assignments `rep["a"] = …; rep["b"] = …` store). -/
+
+section examples
+open Fox
+
+private def C₀ : DMat 2 2 ℤ := DMat.ofMatrix !![1, 1; 0, 1]
+private def Ci₀ : DMat 2 2 ℤ := DMat.ofMatrix !![1, -1; 0, 1]
+
+/-- word homomorphism / inverse letter / free reduction / formal inverse on `abAB` -/
+example : ∃ A, exRep.value ["a", "b", "A", "B"] = .ok A ∧
+    exRep.value (simplifyWord exRep.inv (["a", "b", "A", "B"] ++ ["b", "B"])) = .ok A ∧
+    exRep.value (formalInverse exRep.inv ["a", "b", "A", "B"]) = .ok A⁻¹ := by
+  obtain ⟨A, hA⟩ : ∃ A, exRep.value ["a", "b", "A", "B"] = .ok A := ⟨_, rfl⟩
+  obtain ⟨B, hB⟩ : ∃ B, exRep.value ["b"] = .ok B := ⟨_, rfl⟩
+  obtain ⟨hBi, hB1, _⟩ := wordValue_inv_letter exRep_coherent hB
+  have h2 : exRep.value (["a", "b", "A", "B"] ++ (["b"] ++ [exRep.inv "b"])) = .ok (A * (B * B⁻¹)) :=
+    Rep.value_append_ok _ hA (Rep.value_append_ok _ hB hBi)
+  rw [hB1, Matrix.mul_one] at h2
+  exact ⟨A, hA, wordValue_simplify exRep_coherent h2, wordValue_formalInverse exRep_coherent hA⟩
+
+/-- the assignment `rep["c"] = M` on top of `exRep` keeps the dict invariant -/
+example : ∃ σ, exRep.setGenerator Rep.invertZ "c" C₀ true = .ok σ ∧ σ.WF := by
+  obtain ⟨σ, hσ⟩ : ∃ σ, exRep.setGenerator Rep.invertZ "c" C₀ true = .ok σ := ⟨_, rfl⟩
+  refine ⟨σ, hσ, setGenerator_coherent Rep.invertZ_ok ⟨exRep_coherent, ?_⟩ (by decide) (by decide) hσ⟩
+  intro g X hX
+  rw [exRep_genM] at hX
+  split_ifs at hX with h1 h2 h3 h4 <;> (subst_vars; decide)
+
+/-- conjugate, dual, astype, gln_adjoint -/
+example : ∃ σ A, exRep.conjugate C₀ Ci₀ = .ok σ ∧ exRep.value ["a", "b"] = .ok A ∧
+    σ.value ["a", "b"] = .ok (Ci₀.toMatrix * A * C₀.toMatrix) := by
+  obtain ⟨σ, hσ⟩ : ∃ σ, exRep.conjugate C₀ Ci₀ = .ok σ := ⟨_, rfl⟩
+  obtain ⟨A, hA⟩ : ∃ A, exRep.value ["a", "b"] = .ok A := ⟨_, rfl⟩
+  exact ⟨σ, A, hσ, hA, conjugate_hom (by decide) exRep_coherent hσ hA⟩
+
+example : ∃ σ A, exRep.dual Rep.invertZ = .ok σ ∧ exRep.value ["a", "B"] = .ok A ∧
+    σ.value ["a", "B"] = .ok (A⁻¹)ᵀ := by
+  obtain ⟨σ, hσ⟩ : ∃ σ, exRep.dual Rep.invertZ = .ok σ := ⟨_, rfl⟩
+  obtain ⟨A, hA⟩ : ∃ A, exRep.value ["a", "B"] = .ok A := ⟨_, rfl⟩
+  exact ⟨σ, A, hσ, hA, dual_hom Rep.invertZ_ok exRep_coherent hσ hA⟩
+
+example : ∃ (σ : Rep 2 ℚ) (A : Matrix (Fin 2) (Fin 2) ℤ), exRep.astype (Int.castRingHom ℚ) = .ok σ ∧ exRep.value ["a", "b"] = .ok A ∧
+    σ.value ["a", "b"] = .ok (A.map (Int.castRingHom ℚ)) := by
+  obtain ⟨σ, hσ⟩ : ∃ σ : Rep 2 ℚ, exRep.astype (Int.castRingHom ℚ) = .ok σ := ⟨_, rfl⟩
+  obtain ⟨A, hA⟩ : ∃ A, exRep.value ["a", "b"] = .ok A := ⟨_, rfl⟩
+  exact ⟨σ, A, hσ, hA, astype_hom _ exRep_coherent hσ hA⟩
+
+example : ∃ σ A, exRep.glnAdjoint = .ok σ ∧ exRep.value ["a", "b"] = .ok A ∧
+    σ.value ["a", "b"] = .ok (Rep.kron A (A⁻¹)ᵀ) := by
+  obtain ⟨σ, hσ⟩ : ∃ σ, exRep.glnAdjoint = .ok σ := ⟨_, rfl⟩
+  obtain ⟨A, hA⟩ : ∃ A, exRep.value ["a", "b"] = .ok A := ⟨_, rfl⟩
+  exact ⟨σ, A, hσ, hA, gln_adjoint_hom exRep_coherent hσ hA⟩
+
+private theorem exNames : Rep.NamesOK invertGen exRep.asymGens := by
+  rw [exRep_asymGens]
+  exact ⟨by decide, by decide, by decide⟩
+
+/-- tensor product with itself -/
+example : ∃ τ A, exRep.tensorProduct Rep.invertZ exRep = .ok τ ∧ exRep.value ["a", "B"] = .ok A ∧
+    τ.value ["a", "B"] = .ok (Rep.kron A A) := by
+  obtain ⟨τ, hτ⟩ : ∃ τ, exRep.tensorProduct Rep.invertZ exRep = .ok τ := ⟨_, rfl⟩
+  obtain ⟨A, hA⟩ : ∃ A, exRep.value ["a", "B"] = .ok A := ⟨_, rfl⟩
+  refine ⟨τ, A, hτ, hA, (tensor_hom Rep.invertZ_ok hτ exRep_coherent exRep_coherent exNames
+    ?_ ?_ ?_ ?_ ["a", "B"] ?_ hA hA).1⟩
+  all_goals (rw [exRep_asymGens]; decide)
+
+/-- subgroup generated by `x = ab`, `y = bA` -/
+example : ∃ σ A, exRep.subgroup Rep.invertZ [("x", ["a", "b"]), ("y", ["b", "A"])] true [] = .ok σ ∧
+    exRep.value (["a", "b"] ++ ["a", "B"]) = .ok A ∧ σ.value ["x", "Y"] = .ok A := by
+  obtain ⟨σ, hσ⟩ : ∃ σ, exRep.subgroup Rep.invertZ [("x", ["a", "b"]), ("y", ["b", "A"])] true [] = .ok σ :=
+    ⟨_, rfl⟩
+  obtain ⟨A, hA⟩ : ∃ A, exRep.value (["a", "b"] ++ ["a", "B"]) = .ok A := ⟨_, rfl⟩
+  refine ⟨σ, A, hσ, hA, (subgroup_hom Rep.invertZ_ok hσ exRep_coherent ⟨by decide, by decide, by decide⟩
+    ["x", "Y"] (by decide) ?_).1⟩
+  have : Rep.substWord exRep.inv [("x", ["a", "b"]), ("y", ["b", "A"])] ["x", "Y"] = ["a", "b"] ++ ["a", "B"] := by
+    decide
+  rw [this]; exact hA
+
+end examples
 
 end GT.C05
